@@ -13,11 +13,13 @@ EXTENDS NetDispatch, Json, IOUtils, FiniteSets
 V == JsonDeserialize(IOEnv.TRACE_FILE)
 VARIABLE tid
 OK == <<"ok", "">>
+\* (the specification's transmissions also name the logical receiver; on air only address, payload and NO_ACK exist)
+Strip(o) == [o EXCEPT !.tx = [i \in 1..Len(o.tx) |-> [phys |-> o.tx[i].phys, data |-> o.tx[i].data, noack |-> o.tx[i].noack]]]
 \* kind "write": the first transmission of write(frame, traffic_direct) for a single-frame message and whether the call
 \* waited for a NETWORK_ACK (the harness never sends one: waiting shows as a route_timeout spent)
 WriteClause(v) ==
   LET h == Hdr(0, v.to, v.id, v.type, 0)
-      want == WriteOutcome(v.cfg, h, v.msg, v.direct, v.prefix, v.suffix)
+      want == Strip(WriteOutcome(v.cfg, h, v.msg, v.direct, v.prefix, v.suffix))
       got == [i \in 1..Len(v.sent) |-> [phys |-> v.sent[i].phys, data |-> v.sent[i].data, noack |-> v.sent[i].noack]] IN
   IF v.exc # "none" THEN <<"C05.ReturnTrue", "write() raised " \o v.exc>>
   ELSE IF (v.queued = 1) # want.queued THEN <<"C05.Delivered", "loop-back write: the frame must go straight into the own queue (and only then)">>
@@ -41,7 +43,7 @@ Clause(v) ==
       c == v.cfg IN
   IF short \/ ~IsValid(h.from) \/ ~IsValid(h.to) \/ v.exc # "none" \/ ~InContract(c, h) THEN OK      \* C15's business
   ELSE
-  LET want == Outcome(c, h, msg, v.prefix, v.suffix)
+  LET want == Strip(Outcome(c, h, msg, v.prefix, v.suffix))
       got == [i \in 1..Len(v.sent) |-> [phys |-> v.sent[i].phys, data |-> v.sent[i].data, noack |-> v.sent[i].noack]]
       user == h.type <= 127
       other == h.to # c.addr /\ h.to # McastAddr
